@@ -97,6 +97,11 @@ class Experiment:
         d = analyzer_probs(c, ins) if self.source == "analyzer" else logical_probs(c, ins, normalise=not self.raw)
         items = list(d.items())
         self.rng.shuffle(items)
+        if self.raw:
+            # counts, not frequencies: every setting was measured with its own number of shots (post-selection, adaptive budgets, merged
+            # runs), so the totals differ from setting to setting; noiseless = exactly proportional to the probabilities
+            shots = self.rng.choice([1, 7, 250, 1234.5, 1e6])
+            items = [(k_, v * shots) for k_, v in items]
         return dict(items)
 
 
@@ -314,6 +319,24 @@ def _worker(st, ctx):
     return res
 
 
+# ---------------------------------------------------------------- results that outlive a later tomography (same process, same size)
+KEPT = {}
+
+
+def outlives(kind, nq, t, J, desc, f):
+    """the Choi matrix handed out by an EARLIER tomography object of the same kind and size (kept by its caller, and still reported by that
+    object) must be what it was, after this later one has run; then this one is kept for the next"""
+    prev = KEPT.get((kind, nq))
+    if prev is not None:
+        t0, held, copy0, desc0 = prev
+        for what, now in (("the array returned by process()", held), ("the object's .choi", t0.choi)):
+            if now.shape != copy0.shape or np.abs(now - copy0).max() > 0:
+                f.append((kind + "_choi" if kind == "li" else "mle_fidelity", "%s of an EARLIER %s process tomography (%s) changed by %.3g when a later tomography of the same "
+                          "size ran in the same process (%s)" % (what, kind.upper(), desc0, np.abs(now - copy0).max() if now.shape == copy0.shape else float("nan"), desc)))
+                break
+    KEPT[(kind, nq)] = (t, J, np.array(J, copy=True), desc)
+
+
 # ---------------------------------------------------------------- continuous unitaries (evaluator side of C16)
 def _haar(rng, d):
     Z = (rng.normal(size=(d, d)) + 1j * rng.normal(size=(d, d))) / math.sqrt(2)
@@ -403,6 +426,7 @@ def _continuous_case(nq, k, what):
     if "li" in what:
         t = tm.LIProcessTomography(nq, base, Experiment(k).process)
         J = t.process()
+        outlives("li", nq, t, J, desc, f)
         if np.abs(J - Jx).max() > 1e-7:
             f.append(("li_choi", "linear-inversion Choi matrix differs from the experiments' Choi matrix by %.3g (%s)" % (np.abs(J - Jx).max(), desc)))
         fid = t.fidelity(Jref)
@@ -419,6 +443,7 @@ def _continuous_case(nq, k, what):
     if "mle" in what:
         t = tm.MLEProcessTomography(nq, base, Experiment(k).process)
         J = t.process()
+        outlives("mle", nq, t, J, desc, f)
         ev_min = np.linalg.eigvalsh((J + J.conj().T) / 2).min()
         if ev_min < -1e-8:
             f.append(("mle_positive", "MLE Choi matrix has eigenvalue %.3g (%s)" % (ev_min, desc)))
